@@ -458,7 +458,7 @@ func (e *randEnv) runBlock(begin chain.M, pending []chain.M, w *chain.TraceWrite
 			// member of a multi-message transaction that failed as a whole (chain.BundlePct):
 			// whatever it did was rolled back; the specification knows no such event and
 			// treats it as a rejection without effect
-			ev["name"] = "TxFailed"
+			ev["_orig"], ev["name"] = ev["name"], "TxFailed"
 		}
 		ev["ok"], ev["panic"] = r.OK, r.Panic
 		st := r.State.(chain.M)
